@@ -196,7 +196,7 @@ func main() {
 
 	// property metadata comes from the harness itself
 	metaPath := filepath.Join(work, prop+".meta.json")
-	out, err := run(verif, []string{"VERIF_PROP=" + prop, "VERIF_OUT=" + metaPath}, time.Minute, bin, "-test.run", "^TestMeta$")
+	out, err := run(verif, []string{"VERIF_PROP=" + prop, "VERIF_OUT=" + metaPath}, 10*time.Minute, bin, "-test.run", "^TestMeta$")
 	if err != nil {
 		infra("cannot obtain metadata of %s: %v\n%s", prop, err, out)
 	}
@@ -233,8 +233,20 @@ func main() {
 		enum     bool
 	}
 	var jobs []job
-	for a := 0; a < enumN; a += chunk {
-		b := a + chunk
+	// every worker process builds the whole enumeration before it takes its slice: large
+	// enumerations get larger slices (at most ~64 processes, 1200 plans each at most)
+	echunk := chunk
+	if c := (enumN + 63) / 64; c > echunk {
+		echunk = c
+	}
+	if echunk > 1200 {
+		echunk = 1200
+	}
+	if echunk < chunk {
+		echunk = chunk
+	}
+	for a := 0; a < enumN; a += echunk {
+		b := a + echunk
 		if b > enumN {
 			b = enumN
 		}
